@@ -12,19 +12,24 @@ import (
 // go.mod, second variant: SEQUENCES of three replace directives, every combination and
 // order of the directive classes, each applied to every record:
 //
-//	not-required   replace of a module that is not required at all        -> no effect
-//	all-versions   `replace P => N v`   of a required module              -> N v reported instead
-//	this-version   `replace P v => N v` matching the required version     -> N v reported instead
-//	other-version  `replace P v' => N v` with v' NOT the required version -> no effect
-//	local-path     `replace P => ../dir` of a required module             -> ("../dir", "") reported
+//	not-required     replace of a module that is not required at all           -> no effect
+//	all-versions     `replace P => N v`    wildcard for a required module      -> N v reported instead
+//	this-version     `replace P v => N v`  matching the required version       -> N v reported instead
+//	other-version    `replace P v' => N v` with v' NOT the required version    -> no effect
+//	local-path       `replace P => ../dir` wildcard with a directory target    -> ("../dir", "") reported
+//	chain-wildcard   `replace N => M v`    whose left side is the module that currently replaces
+//	chain-versioned  `replace N v => M v`  the record                          -> no effect
 //
-// Reference = each directive evaluated independently (https://go.dev/ref/mod#go-mod-file-replace),
-// as the extractor documents: gomod.go:132-160 ("has no effect if the name or version to
-// replace is not present"), gomod_test.go "replacements_ one/mixed/local/different/not
-// required/no version". Two effective directives for the same record are never generated
-// (the second one is written as a not-required directive instead): go rejects duplicates.
+// Reference = what the go command does (cmd/go/internal/modload.Replacement, one lookup per
+// required module version): a version-specific directive for the required version has priority
+// over a wildcard one WHATEVER the order of the lines; otherwise the wildcard applies; the
+// replacement itself is not looked up again, so directives do not chain
+// (https://go.dev/ref/mod#go-mod-file-replace). This is also what the extractor documents:
+// gomod.go:132-160, gomod_test.go "replacements_ one/mixed/local/different/not required/no
+// version". go rejects two directives with the same left side (same module and same
+// version-or-wildcard): the later one is written as a not-required directive instead.
 func fmtGomodReplace() *format {
-	classes := []string{"all-versions", "this-version", "other-version", "local-path"}
+	classes := []string{"all-versions", "this-version", "other-version", "local-path", "chain-wildcard", "chain-versioned"}
 	f := &format{
 		id:   "gomod-replace",
 		path: "go.mod",
@@ -32,12 +37,12 @@ func fmtGomodReplace() *format {
 		dims: []dim{
 			{name: "style", labels: []string{"single-line-directives", "one-replace-block"}},
 			{name: "order", labels: []string{"require-first", "replace-first"}},
-			{name: "d1", kind: posIdx, labels: classes},
-			{name: "d2", kind: posIdx, labels: classes},
-			{name: "d3", kind: posIdx, labels: classes},
+			{name: "d1", kind: posIdx, labels: classes, slot: "directives"},
+			{name: "d2", kind: posIdx, labels: classes, slot: "directives"},
+			{name: "d3", kind: posIdx, labels: classes, slot: "directives"},
 		},
 		newEx:       func() filesystem.Extractor { return gomod.New() },
-		maxThorough: 3,
+		maxThorough: 2, // three directives over two records already give every pair on one record and across records
 		norm: func(r rec) rec {
 			r.Version = strings.TrimPrefix(r.Version, "v")
 			return r
@@ -46,36 +51,87 @@ func fmtGomodReplace() *format {
 	major := regexp.MustCompile(`^v(\d+)`)
 	f.gen = func(recs []rec, lay []int) genOut {
 		l := layout{f, lay}
-		repl := map[int]rec{} // record index -> what is reported instead
-		var dirs []string
+		type dir struct {
+			idx, class int
+			newPath    string
+			newVer     string
+		}
+		var ds []dir
+		leftTaken := map[string]bool{} // left sides already used (go rejects duplicates)
+		// pass 1: fix which directives exist, so that the winner per record is known
 		for k, dn := range []string{"d1", "d2", "d3"} {
 			idx, class := l.at(dn)
-			newPath := fmt.Sprintf("example.com/fork/d%d", k+1)
-			newVer := fmt.Sprintf("v1.4.%d", k+1)
-			_, taken := repl[idx]
-			effective := idx >= 0 && (class == 0 || class == 1 || class == 3)
-			if idx < 0 || (effective && taken) {
-				dirs = append(dirs, fmt.Sprintf("example.com/not/required%d v1.0.0 => %s %s", k+1, newPath, newVer))
+			d := dir{idx: idx, class: class, newPath: fmt.Sprintf("example.com/fork/d%d", k+1), newVer: fmt.Sprintf("v1.4.%d", k+1)}
+			if idx >= 0 && class <= 3 {
+				left := fmt.Sprintf("%d/%d", idx, []int{0, 1, 2, 0}[class]) // all-versions and local-path share the wildcard left side
+				if leftTaken[left] {
+					d.idx = -1
+				}
+				leftTaken[left] = true
+			}
+			ds = append(ds, d)
+		}
+		// the go command's choice per record: matching specific directive first, then the wildcard
+		winner := map[int]int{} // record -> directive position
+		for _, want := range []int{1, 0} {
+			for k, d := range ds {
+				if d.idx < 0 {
+					continue
+				}
+				if _, done := winner[d.idx]; done {
+					continue
+				}
+				if (want == 1 && d.class == 1) || (want == 0 && (d.class == 0 || d.class == 3)) {
+					winner[d.idx] = k
+				}
+			}
+		}
+		repl := map[int]rec{}
+		var dirs []string
+		for k, d := range ds {
+			notRequired := fmt.Sprintf("example.com/not/required%d v1.0.0 => %s %s", k+1, d.newPath, d.newVer)
+			if d.idx < 0 {
+				dirs = append(dirs, notRequired)
 				continue
 			}
-			r := recs[idx]
-			switch class {
+			r := recs[d.idx]
+			switch d.class {
 			case 0:
-				dirs = append(dirs, r.Name+" => "+newPath+" "+newVer)
-				repl[idx] = rec{Name: newPath, Version: newVer}
+				dirs = append(dirs, r.Name+" => "+d.newPath+" "+d.newVer)
 			case 1:
-				dirs = append(dirs, r.Name+" "+r.Version+" => "+newPath+" "+newVer)
-				repl[idx] = rec{Name: newPath, Version: newVer}
+				dirs = append(dirs, r.Name+" "+r.Version+" => "+d.newPath+" "+d.newVer)
 			case 2:
 				other := "v" + major.FindStringSubmatch(r.Version)[1] + ".99.0"
 				if strings.HasSuffix(r.Version, "+incompatible") {
 					other += "+incompatible"
 				}
-				dirs = append(dirs, r.Name+" "+other+" => "+newPath+" "+newVer)
+				dirs = append(dirs, r.Name+" "+other+" => "+d.newPath+" "+d.newVer)
 			case 3:
-				local := fmt.Sprintf("../local/d%d", k+1)
-				dirs = append(dirs, r.Name+" => "+local)
-				repl[idx] = rec{Name: local, Version: ""}
+				dirs = append(dirs, r.Name+" => "+fmt.Sprintf("../local/d%d", k+1))
+			case 4, 5:
+				// left side = the module that replaces the record (if that is a module path)
+				w, ok := winner[d.idx]
+				if !ok || ds[w].class == 3 || w == k {
+					dirs = append(dirs, notRequired)
+					continue
+				}
+				left := ds[w].newPath
+				if d.class == 5 {
+					left += " " + ds[w].newVer
+				}
+				if leftTaken["chain/"+left] {
+					dirs = append(dirs, notRequired)
+					continue
+				}
+				leftTaken["chain/"+left] = true
+				dirs = append(dirs, left+" => "+d.newPath+" "+d.newVer)
+			}
+			if w, ok := winner[d.idx]; ok && w == k {
+				if d.class == 3 {
+					repl[d.idx] = rec{Name: fmt.Sprintf("../local/d%d", k+1), Version: ""}
+				} else {
+					repl[d.idx] = rec{Name: d.newPath, Version: d.newVer}
+				}
 			}
 		}
 		truth := []rec{{Name: "stdlib", Version: "1.21"}}
